@@ -29,6 +29,8 @@ function validate(ctx, content)
   try("package_loadlib", function() local f, e = package.loadlib(libm, "*"); if f == nil then error(e) end; return "loaded" end)
   try("package_loadlib_sym", function() local f, e = package.loadlib(cdir .. "/vmod.so", "luaopen_vmod"); if f == nil then error(e) end; return "loaded:" .. type(f) end)
   try("require_cmod", function() package.cpath = cdir .. "/?.so"; local m = require("vmod"); return "loaded:" .. S(m) end)
+  -- a dotted name goes through the "all-in-one" searcher: vmod.so, entry point luaopen_vmod_sub
+  try("require_cmod_dotted", function() package.cpath = cdir .. "/?.so"; local m = require("vmod.sub"); return "loaded:" .. S(m) end)
   try("require_luamod", function() package.path = cdir .. "/?.lua"; local m = require("lmod"); return "loaded:" .. S(m) end)
   try("dofile", function() return dofile(nonce) end)
   try("loadfile", function() local f, e = loadfile(nonce); if f == nil then error(e) end; return f() end)
